@@ -35,8 +35,11 @@ CONSTANTS
     Mode,           \* "produce" | "consume"
     ResetPolicy,    \* "fm94": every register is re-initialised at each subset
                     \* "leaky": only what pybufrkit's switch_subset_context used to reset (new reference values)
-    NulStrings      \* TRUE: the "blank" string class is all NUL octets instead (character data outside IA5 text; a
+    NulStrings,     \* TRUE: the "blank" string class is all NUL octets instead (character data outside IA5 text; a
                     \* compressed column of them has an all-zero minimum, which pybufrkit returns as the empty string)
+    NestedAssoc     \* TRUE: a 204YYY while another is in force is walked with pybufrkit's reading (AssocNestedAsSum) instead of
+                    \* ending the behaviour as OutsideWF - used where the property is about the agreement of two views of the
+                    \* same decoded data (C07 / C09: flat data and hierarchical view), not about what FM-94 assigns
 
 VARIABLES
     tid, ed, cmp, nsub, seed,   \* chosen in Init
@@ -437,7 +440,7 @@ OperatorReg ==          \* operators that only change registers
               [] OpX = 203 -> SetReg(IF OpY = 255 THEN [r1 EXCEPT !.rvw = 0]
                                      ELSE IF OpY = 0 THEN [r1 EXCEPT !.rvw = 0, !.newref = <<>>]
                                      ELSE [r1 EXCEPT !.rvw = OpY])
-              [] OpX = 204 -> IF OpY # 0 /\ r1.assoc # <<>> THEN Fail("OutsideWF")       \* nested 204: FM-94 is silent
+              [] OpX = 204 -> IF OpY # 0 /\ r1.assoc # <<>> /\ ~NestedAssoc THEN Fail("OutsideWF")       \* nested 204: FM-94 is silent
                               ELSE IF OpY = 0 THEN (IF r1.assoc = <<>> THEN Fail("IndexError")
                                                ELSE SetReg([r1 EXCEPT !.assoc = SubSeq(@, 1, Len(@) - 1)]))
                               ELSE SetReg([r1 EXCEPT !.assoc = Append(@, OpY)])
